@@ -1,7 +1,7 @@
 #!/bin/sh
 # convenience: run every claimed check at the given tier (default quick)
 T=${1:-quick}
-cd /verif
+cd "$(dirname "$0")"
 for p in $(python3 -c "import json;print(' '.join(c['property_id'] for c in json.load(open('MANIFEST.json'))['checks']))"); do
   ./check $p --tier $T 2>&1 | grep -E "^C[0-9]|VIOLATION|KNOWN-FINDING" | cut -c1-230
 done
